@@ -155,3 +155,50 @@ def frame_digest(frame):
     for key, m in (frame.transforms.items() if frame.transforms is not None else []):
         mats.append((str(key), tuple(round(float(v), 9) for v in m.matrix.reshape(-1))))
     return (int(frame.unix_time), str(frame.frame_name), tuple(obj_digest(o) for o in frame.objects), tuple(mats))
+
+
+# ------------------------------------------------------------------------------------------------------
+# filter criteria as the PLAN configured them (independent of the repository's own config objects)
+# ------------------------------------------------------------------------------------------------------
+
+_ALIAS_OF = {"vehicle.car": "car", "vehicle.truck": "truck", "vehicle.bus": "bus", "vehicle.bicycle": "bicycle",
+             "vehicle.motorcycle": "motorbike", "pedestrian.adult": "pedestrian"}
+_MERGE = {"truck": "car", "bus": "car", "motorbike": "bicycle"}
+
+
+def canonical_label(name, merge):
+    base = _ALIAS_OF.get(name, name)
+    return _MERGE.get(base, base) if merge else base
+
+
+def _per_label(value, n):
+    if value is None:
+        return None
+    if isinstance(value, (list, tuple)):
+        return [v for v in value]
+    return [value] * n
+
+
+def plan_filter_params(plan_cfg, spec=None):
+    """Reference-model parameters of the evaluator-level criteria (spec None) or of a per-frame critical filter spec."""
+    merge = bool(plan_cfg["merge"])
+    if spec is None:
+        labels = [canonical_label(l, merge) for l in plan_cfg["target_labels"]]
+        n = len(labels)
+        rg = plan_cfg.get("range")
+        out = {"target_labels": labels, "ignore_attributes": plan_cfg.get("ignore_attrs"), "max_x": None, "max_y": None, "max_dist": None,
+               "min_dist": None, "min_pts": _per_label(plan_cfg.get("min_pts"), n), "conf_thr": _per_label(plan_cfg.get("conf_thr"), n),
+               "target_uuids": plan_cfg.get("target_uuids")}
+    else:
+        labels = [canonical_label(l, merge) for l in spec["labels"]]
+        n = len(labels)
+        rg = spec.get("range")
+        out = {"target_labels": labels, "ignore_attributes": spec.get("ignore_attrs"), "max_x": None, "max_y": None, "max_dist": None,
+               "min_dist": None, "min_pts": _per_label(spec.get("min_pts"), n), "conf_thr": _per_label(spec.get("conf_thr"), n),
+               "target_uuids": spec.get("target_uuids")}
+    if rg is not None:
+        if rg["kind"] == "xy":
+            out["max_x"], out["max_y"] = _per_label(rg["max_x"], n), _per_label(rg["max_y"], n)
+        else:
+            out["max_dist"], out["min_dist"] = _per_label(rg["max"], n), _per_label(rg["min"], n)
+    return out
